@@ -3,7 +3,7 @@ package store
 // Native world of C04 (used only when the harness runs natively, i.e. in replays): a real
 // temporary directory, a real SQLite database in WAL mode with the tables
 //
-//	t0(v), t1(v)   one row each: the "version" of page 0 / page 1
+//	t0(v, c), t1(v, c)   one row each: the "version" of page 0 / page 1 and how often it was written
 //	lin(v)         one row: the lineage of the database
 //
 // the real Checkpointer (db.SwappableDB.Checkpoint) and the real snapshot store. Provenance of
@@ -20,6 +20,8 @@ import (
 
 	command "github.com/rqlite/rqlite/v10/command/proto"
 	sql "github.com/rqlite/rqlite/v10/db"
+	"github.com/rqlite/rqlite/v10/internal/fsutil"
+	"github.com/rqlite/rqlite/v10/internal/rsum"
 	"github.com/rqlite/rqlite/v10/snapshot"
 )
 
@@ -58,11 +60,21 @@ func vcMakeDBFile(path string, st vcState) {
 	d, err := sql.Open(path, false, false)
 	vcMust(err)
 	vcExec(d,
-		"CREATE TABLE t0 (v INTEGER)", "CREATE TABLE t1 (v INTEGER)", "CREATE TABLE lin (v INTEGER)",
-		fmt.Sprintf("INSERT INTO t0 VALUES(%d)", st.p[0]),
-		fmt.Sprintf("INSERT INTO t1 VALUES(%d)", st.p[1]),
+		"CREATE TABLE t0 (v INTEGER, c INTEGER)", "CREATE TABLE t1 (v INTEGER, c INTEGER)", "CREATE TABLE lin (v INTEGER)",
+		fmt.Sprintf("INSERT INTO t0 VALUES(%d, %d)", st.p[0], st.c[0]),
+		fmt.Sprintf("INSERT INTO t1 VALUES(%d, %d)", st.p[1], st.c[1]),
 		fmt.Sprintf("INSERT INTO lin VALUES(%d)", st.lin))
 	vcMust(d.Close())
+}
+
+const vcStateQuery = "SELECT (SELECT v FROM lin), (SELECT v FROM t0), (SELECT v FROM t1), (SELECT c FROM t0), (SELECT c FROM t1)"
+
+func vcStateOfRows(rows []*command.QueryRows, err error) (vcState, bool) {
+	if err != nil || len(rows) != 1 || rows[0].GetError() != "" || len(rows[0].Values) != 1 || len(rows[0].Values[0].Parameters) != 5 {
+		return vcState{}, false
+	}
+	p := rows[0].Values[0].Parameters
+	return vcState{lin: int(p[0].GetI()), p: [2]int{int(p[1].GetI()), int(p[2].GetI())}, c: [2]int{int(p[3].GetI()), int(p[4].GetI())}}, true
 }
 
 // vcReadDBFile reads the abstraction back from a SQLite file.
@@ -72,22 +84,63 @@ func vcReadDBFile(path string) (vcState, bool) {
 		return vcState{}, false
 	}
 	defer d.Close()
-	rows, err := d.QueryStringStmt("SELECT (SELECT v FROM lin), (SELECT v FROM t0), (SELECT v FROM t1)")
-	if err != nil || len(rows) != 1 || rows[0].GetError() != "" || len(rows[0].Values) != 1 || len(rows[0].Values[0].Parameters) != 3 {
-		return vcState{}, false
-	}
-	p := rows[0].Values[0].Parameters
-	return vcState{lin: int(p[0].GetI()), p: [2]int{int(p[1].GetI()), int(p[2].GetI())}}, true
+	rows, err := d.QueryStringStmt(vcStateQuery)
+	return vcStateOfRows(rows, err)
 }
 
 // nativeLiveState reads the abstraction through the node's own database handle.
 func (e *vcEnv) nativeLiveState() (vcState, bool) {
-	rows, err := e.s.db.QueryStringStmt("SELECT (SELECT v FROM lin), (SELECT v FROM t0), (SELECT v FROM t1)")
-	if err != nil || len(rows) != 1 || rows[0].GetError() != "" || len(rows[0].Values) != 1 || len(rows[0].Values[0].Parameters) != 3 {
-		return vcState{}, false
+	rows, err := e.s.db.QueryStringStmt(vcStateQuery)
+	return vcStateOfRows(rows, err)
+}
+
+// nativeMarkerMatches: the clean-snapshot check of Store.Open (its lines): the marker is readable,
+// modification time and size of the database file equal the marker's; the CRC32 is compared too (in
+// Store.Open in the background: a mismatch removes the marker and ends the process, so the start
+// after that is a slow one).
+func (e *vcEnv) nativeMarkerMatches() bool {
+	s := e.s
+	if !fsutil.PathExists(s.cleanSnapshotPath) {
+		return false
 	}
-	p := rows[0].Values[0].Parameters
-	return vcState{lin: int(p[0].GetI()), p: [2]int{int(p[1].GetI()), int(p[2].GetI())}}, true
+	fp := &FileFingerprint{}
+	if err := fp.ReadFromFile(s.cleanSnapshotPath); err != nil {
+		return false
+	}
+	mt, sz, err := fsutil.ModTimeSize(s.dbPath)
+	if err != nil {
+		return false
+	}
+	if !mt.Equal(fp.ModTime) || sz != fp.Size {
+		return false
+	}
+	if fp.CRC32 != 0 {
+		sum, err := rsum.CRC32(s.dbPath)
+		if err != nil || sum != fp.CRC32 {
+			return false
+		}
+	}
+	return true
+}
+
+// nativeLeaderImageWAL: a WAL-mode database file holding pre, and next to it (as walPath) the WAL
+// file of a transaction that rewrites both pages to version ver; the database file itself does not
+// contain that transaction (no checkpoint on close).
+func (e *vcEnv) nativeLeaderImageWAL(dbPath, walPath string, pre vcState, ver int) {
+	vcMakeDBFile(dbPath, pre)
+	vcMust(sql.EnsureWALMode(dbPath))
+	vcMust(sql.RemoveWALFiles(dbPath))
+	d, err := sql.Open(dbPath, false, true)
+	vcMust(err)
+	vcExec(d, "BEGIN", fmt.Sprintf("UPDATE t0 SET v=%d, c=c+1", ver), fmt.Sprintf("UPDATE t1 SET v=%d, c=c+1", ver), "COMMIT")
+	vcMust(d.Close())
+	b, err := os.ReadFile(dbPath + "-wal")
+	vcMust(err)
+	if len(b) == 0 {
+		panic("verif: world setup: the leader's WAL file is empty")
+	}
+	vcMust(os.WriteFile(walPath, b, 0o644))
+	vcMust(sql.RemoveWALFiles(dbPath))
 }
 
 func (e *vcEnv) nativeCreateDB(st vcState) {
@@ -119,7 +172,12 @@ func (e *vcEnv) nativeClose() {
 }
 
 func (e *vcEnv) nativeWrite(page, ver int) {
-	vcExec(e.s.db, fmt.Sprintf("UPDATE t%d SET v=%d", page, ver))
+	if page == 2 {
+		// the page-heavy batch: both pages in one transaction
+		vcExec(e.s.db, "BEGIN", fmt.Sprintf("UPDATE t0 SET v=%d, c=c+1", ver), fmt.Sprintf("UPDATE t1 SET v=%d, c=c+1", ver), "COMMIT")
+		return
+	}
+	vcExec(e.s.db, fmt.Sprintf("UPDATE t%d SET v=%d, c=c+1", page, ver))
 }
 
 func (e *vcEnv) nativeSwapDB(st vcState) {
